@@ -70,6 +70,8 @@ fn parse_req(s: &str) -> Option<c11::Req> {
         "clear_limit" => c11::Req::ClearLimit,
         "words(MAX)" => c11::Req::Words(usize::MAX),
         "set_limit(MAX)" => c11::Req::SetLimit(usize::MAX),
+        "words(MAX/4)" => c11::Req::Words(usize::MAX / 4),
+        "words(MAX/4-1)" => c11::Req::Words(usize::MAX / 4 - 1),
         x if x.starts_with("words(") => c11::Req::Words(x[6..x.len() - 1].parse().ok()?),
         x if x.starts_with("set_limit(") => c11::Req::SetLimit(x[10..x.len() - 1].parse().ok()?),
         _ => return None,
